@@ -266,11 +266,14 @@ where
         let it = state.try_get_value::<Iterations>().unwrap_or(0) as u64;
         let mut g = Gen::new(self.seed ^ (0x4D49_5845u64 << 8) ^ if self.in_loop { it + 1 } else { 0 });
         let dim = problem.dimension();
-        let n = g.below(self.max + 1);
+        // small cases cover 0..max, large ones stay large (more distinct solutions than any
+        // window or cache a component is likely to keep)
+        let n = if self.max >= 40 { self.max / 2 + g.below(self.max / 2 + 1) } else { g.below(self.max + 1) };
+        let dup = if self.max >= 40 { 0.3 } else { 0.5 };
         let mut pop: Vec<mahf::Individual<P>> = Vec::with_capacity(n);
         for i in 0..n {
             // runs of equal neighbours are the rule, not the exception
-            let solution: Vec<bool> = if i > 0 && g.chance(0.5) { pop[i - 1].solution().clone() } else { (0..dim).map(|_| g.chance(0.5)).collect() };
+            let solution: Vec<bool> = if i > 0 && g.chance(dup) { pop[i - 1].solution().clone() } else { (0..dim).map(|_| g.chance(0.5)).collect() };
             let ind = if g.chance(0.5) {
                 let f = problem.reference(&solution);
                 mahf::Individual::new(solution, mahf::SingleObjective::try_from(f).expect("harness objective is never NaN"))
@@ -729,7 +732,9 @@ pub fn gen_case(g: &mut Gen, kind: Kind, o: &GenOpts) -> TCase {
             set("replacement_kind", g.below(3) as f64);
         }
         Kind::EvalMix => {
-            set("mix_max", (1 + g.below(8)) as f64);
+            // mostly small; some populations are far larger than any window or batch size a
+            // component might use internally (dozens of duplicates in flight at once)
+            set("mix_max", if g.chance(0.2) { (40 + g.below(60)) as f64 } else { (1 + g.below(8)) as f64 });
         }
         Kind::BigInit => {
             set("population_size", (200 + g.below(313)) as f64);
